@@ -49,6 +49,14 @@ class Deps:
                         root, keys = self._container(t)
                         if root is not None:
                             self.binds.setdefault(root, []).extend([n.value] + keys + self._controlling_tests(n))
+        # a constant chosen by a branch (`if c: x = '+' else: x = '-'`, the statement form of a conditional expression) carries
+        # the information of the test
+        for n in walk_no_nested(fn):
+            if isinstance(n, ast.Assign) and len(n.targets) == 1 and isinstance(n.targets[0], ast.Name) and \
+                    isinstance(n.value, ast.Constant):
+                tests = self._controlling_tests(n)
+                if tests:
+                    self.binds.setdefault(n.targets[0].id, []).extend(tests)
         self._memo = {}
 
     def _controlling_tests(self, node):
